@@ -20,8 +20,9 @@
                            (`if / elif / else`); the pole loop inserts the pole corner's nominal
                            longitude.
     * `Variant.repaired` — `fixes/C13-*.patch`: the normal loop inserts the corner AND both arc
-                           extremes; the pole loop replaces the (meaningless) longitude of a corner
-                           that sits on the pole by the longitude of the edge's other end.
+                           extremes; a face with a corner on a pole always takes the pole loop, and
+                           the pole loop replaces the (meaningless) longitude of a corner that sits
+                           on the pole by the longitude of the edge's other end.
 
   §5 is the independent oracle used by the driver to judge the implementation's output
   (sampling of every edge + analytic apex, never calling §3).
@@ -195,6 +196,11 @@ structure Fn (K : Type) where
   /-- absolute tolerance standing for the `MACHINE_EPSILON` plane / range tests of
       `point_within_gca` (idealised, see §4) -/
   eps : K
+  /-- `v / ‖v‖` (the identity when the model is run on exact direction vectors) -/
+  normalize : V3 K → V3 K
+  /-- `allclose(p, q, atol=ERROR_TOLERANCE)` on Cartesian triples (on exact direction vectors:
+      same direction) -/
+  samePt : V3 K → V3 K → Bool
 
 section geom
 variable {K : Type} [Add K] [Sub K] [Mul K] [Div K] [Neg K] [OfNat K 0] [OfNat K 1]
@@ -261,12 +267,14 @@ structure Edge (K : Type) where
   lon2 : K
   lat2 : K
 
-def normalize (F : Fn K) (v : V3 K) : V3 K :=
-  let n := F.sqrt (dot v v)
+/-- the float instance of `Fn.normalize` -/
+def normalizeBy (sqrt : K → K) (v : V3 K) : V3 K :=
+  let n := sqrt (dot v v)
   ⟨v.x / n, v.y / n, v.z / n⟩
 
-/-- `allclose(p, q, atol=ERROR_TOLERANCE)` on Cartesian triples (rtol = numpy default, inside `close`) -/
-def samePt (F : Fn K) (p q : V3 K) : Bool := F.close p.x q.x && F.close p.y q.y && F.close p.z q.z
+/-- the float instance of `Fn.samePt`: componentwise `isclose` (numpy's default rtol inside `close`) -/
+def samePtBy (close : K → K → Bool) (p q : V3 K) : Bool :=
+  close p.x q.x && close p.y q.y && close p.z q.z
 
 /-- `p` (on the great circle of `a,b`) lies between `a` and `b` -/
 def between (F : Fn K) (a b p : V3 K) : Bool :=
@@ -285,7 +293,7 @@ def arcMeet (F : Fn K) (w0 w1 v0 v1 : V3 K) : List (V3 K) :=
   if F.abs c.x ≤ F.eps ∧ F.abs c.y ≤ F.eps ∧ F.abs c.z ≤ F.eps then
     (if onGca F w0 w1 v0 then [v0] else []) ++ (if onGca F w0 w1 v1 then [v1] else [])
   else
-    let x1 := normalize F c
+    let x1 := F.normalize c
     let x2 := vneg x1
     (if between F w0 w1 x1 && between F v0 v1 x1 then [x1] else []) ++
     (if between F w0 w1 x2 && between F v0 v1 x2 then [x2] else [])
@@ -294,16 +302,16 @@ def arcMeet (F : Fn K) (w0 w1 v0 v1 : V3 K) : List (V3 K) :=
 def uniquePts (F : Fn K) : List (V3 K) → List (V3 K)
   | [] => []
   | p :: ps => let r := uniquePts F ps
-               if r.any (samePt F p) then r else p :: r
+               if r.any (F.samePt p) then r else p :: r
 
 /-- `_check_intersection(ref_edge, edges)`; `True` is returned as `1` -/
 def checkInt (F : Fn K) (pole ref : V3 K) (edges : List (Edge K)) : Nat :=
   let pts := edges.flatMap fun e => arcMeet F pole ref e.a e.b
-  if pts.any (samePt F pole) then 1
+  if pts.any (fun p => F.samePt p pole) then 1
   else
     let u := uniquePts F pts
     match u with
-    | [p] => if edges.any (fun e => samePt F p e.a || samePt F p e.b) then 0 else 1
+    | [p] => if edges.any (fun e => F.samePt p e.a || F.samePt p e.b) then 0 else 1
     | _ => u.length
 
 inductive Loc | north | south | equator
@@ -335,14 +343,23 @@ def summ (F : Fn K) (halfPi : K) (north : Bool) (e : Edge K) : ES K :=
   let pole : V3 K := poleVec north
   { lat1 := e.lat1, lon1 := e.lon1, lat2 := e.lat2, lon2 := e.lon2,
     mx := extremeLat F halfPi true e.a e.b, mn := extremeLat F halfPi false e.a e.b,
-    n1Pole := samePt F e.a pole, onEdge := onGca F e.a e.b pole }
+    n1Pole := F.samePt e.a pole, onEdge := onGca F e.a e.b pole }
+
+/-- the two pole flags of `_populate_face_latlon_bound`: the parity count, and — repaired — also
+    "some corner sits on that pole" (a face with a corner on a pole contains it, whatever the
+    crossing count made of the two edges that end there) -/
+def poleFlags (F : Fn K) (v : Variant) (edges : List (Edge K)) : Bool × Bool :=
+  let corner (north : Bool) : Bool :=
+    match v with
+    | .asIs => false
+    | .repaired => edges.any fun e => F.samePt e.a (poleVec north)
+  (poleInside F true edges || corner true, poleInside F false edges || corner false)
 
 /-- `_populate_face_latlon_bound(face_edges_cartesian, face_edges_lonlat_rad)` with the defaults
     of `Grid.bounds` (every edge a great-circle arc) -/
 def faceBounds (c : Consts K) (F : Fn K) (v : Variant) (edges : List (Edge K)) : Box K :=
-  let hasN := poleInside F true edges
-  let hasS := poleInside F false edges
-  runFace c F.close v hasN hasS (edges.map (summ F c.halfPi hasN))
+  let fl := poleFlags F v edges
+  runFace c F.close v fl.1 fl.2 (edges.map (summ F c.halfPi fl.1))
 
 end geom
 
